@@ -55,12 +55,15 @@ class ExecutionContext:
             return self.__CreateStructureInstance(varType)
         elif varType.IsArray():
             assert isinstance(varType, LinearIR.ArrayType)
-            result = [
-                self.__CreateInstance(varType.ElementType)
-            ] * varType.Size[0]
-            for dimSize in varType.Size[1:]:
-                result = [result] * dimSize
-            return result
+
+            # Every element is its own instance (``[x] * n`` would make all
+            # rows share one list), and the first dimension is the outermost
+            def Create(dimensions):
+                if not dimensions:
+                    return self.__CreateInstance(varType.ElementType)
+                return [Create(dimensions[1:]) for _ in range(dimensions[0])]
+
+            return Create(varType.Size)
 
     def __CreatePrimitiveInstance(self, primitiveType: LinearIR.Type):
         match primitiveType.Kind:
